@@ -95,11 +95,25 @@ pub fn build_universe(rng: &mut Rng, big: bool) -> Universe {
 	// bootstrap methods: plain arguments, none, and a dynamic constant as argument of another
 	let plain: Vec<u16> = by_kind[0].clone();
 	let mut bsm: Vec<(u16, Vec<u16>)> = vec![];
-	bsm.push((*rng.pick(&handles), (0..rng.range(1, 3)).map(|_| *rng.pick(&plain)).collect()));
+	// the same argument twice in a row: the argument list of a bootstrap method is a sequence, not a set
+	bsm.push((*rng.pick(&handles), { let mut a: Vec<u16> = (0..rng.range(1, 3)).map(|_| *rng.pick(&plain)).collect(); let last = a[a.len() - 1]; a.push(last); a }));
 	bsm.push((*rng.pick(&handles), vec![]));
-	let nt = p.nt("dyn0", "I"); let d0 = p.add(PE::Dynamic(rng.below(2) as u16, nt)); by_kind[0].push(d0);
+	let b0 = rng.below(2) as u16;
+	let nt = p.nt("dyn0", "I"); let d0 = p.add(PE::Dynamic(b0, nt)); by_kind[0].push(d0);
 	bsm.push((*rng.pick(&handles), vec![d0, *rng.pick(&plain)]));
 	let nt = p.nt("dyn1", "Lp/C0;"); let d1 = p.add(PE::Dynamic(2, nt)); by_kind[0].push(d1);
+	// Dynamic constants that SHARE a bootstrap method and differ only in their own NameAndType (what javac / ASM emit for
+	// ConstantBootstraps.primitiveClass, nullConstant, enumConstant: the bootstrap method selects by the constant's name and
+	// type): same name with another type, another name with the same type, both different — at the top level (bootstrap
+	// methods b0 and 2) and together as arguments of one further bootstrap method.  Name and type belong to the ENTRY,
+	// handle and arguments to the bootstrap method.
+	let mut twins = vec![];
+	for (n, d) in [("dyn0", "J"), ("dynA", "I"), ("dynB", "Ljava/lang/Class;")] { let nt = p.nt(n, d); let x = p.add(PE::Dynamic(b0, nt)); by_kind[0].push(x); twins.push(x); }
+	for (n, d) in [("dyn1", "Lp/C1;"), ("dyn2", "Lp/C0;")] { let nt = p.nt(n, d); let x = p.add(PE::Dynamic(2, nt)); by_kind[0].push(x); twins.push(x); }
+	rng.shuffle(&mut twins);
+	let mut args = vec![d0]; args.extend(twins.iter().copied()); args.push(d1); args.push(d0);
+	let shared = bsm.len() as u16; bsm.push((*rng.pick(&handles), args));
+	for (n, d) in [("dynS", "I"), ("dynS", "D")] { let nt = p.nt(n, d); let x = p.add(PE::Dynamic(shared, nt)); by_kind[0].push(x); }
 	fill(rng, &mut p);
 	for i in 0..per { let nt = p.nt(&format!("indy{i}"), *rng.pick(&mdescs[..])); let x = p.add(PE::Indy(rng.below(3) as u16, nt)); by_kind[5].push(x); }
 	fill(rng, &mut p);
@@ -368,6 +382,26 @@ impl MethodGen {
 		}
 		s
 	}
+	/// ground truth of the frames with their contents: the StackMapTable frames in file order, or the CLDC StackMap
+	/// entries in the order of their offsets, each as a full frame
+	pub fn truth_frames(&self, u: &Universe) -> Vec<XFrame> {
+		let xv = |v: &VT| match v {
+			VT::Top => XVt::Top, VT::Int => XVt::Int, VT::Float => XVt::Float, VT::Double => XVt::Double, VT::Long => XVt::Long, VT::Null => XVt::Null,
+			VT::UninitThis => XVt::UninitThis,
+			VT::Object(c) => match u.pool.resolve(6, *c, &u.bsm) { Some(CVal::Class(n)) => XVt::Object(n), _ => XVt::Top },
+			VT::Uninit(k) => XVt::Uninit(Some(*k)),
+		};
+		let mut out = vec![];
+		for a in &self.attrs { match a {
+			CA::Smt(fs) => for (_, fk, _) in fs { out.push(match fk {
+				FK::Same => XFrame::Same, FK::Same1(v) => XFrame::Same1(xv(v)), FK::Chop(c) => XFrame::Chop(*c),
+				FK::Append(vs) => XFrame::Append(vs.iter().map(&xv).collect()), FK::Full(l, s) => XFrame::Full(l.iter().map(&xv).collect(), s.iter().map(&xv).collect()),
+			}); },
+			CA::Smap(fs) => for (_, l, s) in Self::smap_sorted(fs) { out.push(XFrame::Full(l.iter().map(&xv).collect(), s.iter().map(&xv).collect())); },
+			_ => {}
+		} }
+		out
+	}
 	pub fn g_enc_case(&self) -> String {
 		format!("CEnc [{}] [{}] (Some {})",
 			self.body.iter().map(|i| g_insn(i, &|t: &usize| format!("{t}%nat"))).collect::<Vec<_>>().join("; "),
@@ -389,7 +423,7 @@ pub fn class_of(u: &Universe, ms: &[MethodGen], pool: &mut Pool) -> Vec<u8> {
 	class_bytes(pool, 0, 61, 0x0021, u.this, u.sup, &[], &[], &members, &[u.bsm_attr()])
 }
 
-pub enum Outcome { Ok(Vec<XSem>), Err, Panic(String) }
+pub enum Outcome { Ok(Vec<XSem>, Vec<Vec<XFrame>>), Err, Panic(String) }
 /// breadcrumb: the class file about to be handed to duke (a stack overflow / abort / endless loop kills the harness)
 pub fn crumb_class(bytes: &[u8]) {
 	fbh::report::crumb(&format!("property C01\nwhat: duke::read_class does not return on this class file (the harness process died or timed out while reading it)\nclass file (hex): {}\n", hex(bytes)));
@@ -400,7 +434,8 @@ pub fn read_with_duke(bytes: &[u8]) -> Outcome {
 	match guarded(move || duke::read_class(&mut Cursor::new(b)).ok()) {
 		Err(p) => Outcome::Panic(p),
 		Ok(None) => Outcome::Err,
-		Ok(Some(c)) => Outcome::Ok(c.methods.iter().map(|m| m.code.as_ref().map(xsem_of_code).unwrap_or_default()).collect()),
+		Ok(Some(c)) => Outcome::Ok(c.methods.iter().map(|m| m.code.as_ref().map(xsem_of_code).unwrap_or_default()).collect(),
+			c.methods.iter().map(|m| m.code.as_ref().map(xframes_of_code).unwrap_or_default()).collect()),
 	}
 }
 
@@ -449,7 +484,7 @@ fn stream_generated(ctx: &Ctx, r: &mut Report, rng: &mut Rng) {
 		match &got {
 			Outcome::Panic(p) => r.violation(format!("duke::read_class panicked on a valid generated class: {p}"), replay("read_class panics on this valid class")),
 			Outcome::Err => r.violation("duke::read_class rejects a valid generated class".into(), replay("read_class returns Err on this valid class")),
-			Outcome::Ok(v) => {
+			Outcome::Ok(v, fr) => {
 				if v.len() != truth.len() { r.violation("wrong number of methods delivered".into(), replay("number of methods")); }
 				for (k, (a, b)) in v.iter().zip(&truth).enumerate() {
 					if a != b {
@@ -458,9 +493,19 @@ fn stream_generated(ctx: &Ctx, r: &mut Report, rng: &mut Rng) {
 						break;
 					}
 				}
+				// the contents of the stack map frames (kind, verification types with their classes and Uninitialized offsets)
+				for (k, (m, got)) in ms.iter().zip(fr).enumerate() {
+					let want = m.truth_frames(&u);
+					if *got != want {
+						let j = got.iter().zip(&want).position(|(a, b)| a != b).unwrap_or(got.len().min(want.len()));
+						let d = format!("frame {j}: delivered {:?}, the StackMapTable states {:?}", got.get(j), want.get(j));
+						r.violation(format!("method m{k}: {d}"), replay(&format!("the stack map frames of method m{k} are not delivered as the file states them: {d}")));
+						break;
+					}
+				}
 			}
 		}
-		let res = match &got { Outcome::Ok(v) => format!("(Ok [{}])", v.iter().map(g_xsem).collect::<Vec<_>>().join("; ")), _ => "Err".into() };
+		let res = match &got { Outcome::Ok(v, _) => format!("(Ok [{}])", v.iter().map(g_xsem).collect::<Vec<_>>().join("; ")), _ => "Err".into() };
 		if !matches!(got, Outcome::Panic(_)) {
 			r.case("gen-class", format!("CClass {} {} [{}] {}", pool.gallina(), g_bsm(&u.bsm), ms.iter().map(|m| m.g_code_in()).collect::<Vec<_>>().join("; "), res));
 		}
@@ -509,12 +554,18 @@ fn stream_cldc(ctx: &Ctx, r: &mut Report, rng: &mut Rng) {
 		match &got {
 			Outcome::Panic(p) => r.violation(format!("duke::read_class panicked on a class with a StackMap attribute: {p}"), replay("read_class panics")),
 			Outcome::Err => r.violation("duke::read_class rejects a valid class with a StackMap attribute".into(), replay("read_class returns Err on this valid class")),
-			Outcome::Ok(v) => if v.len() != 1 || v[0] != truth {
+			Outcome::Ok(v, fr) => if v.len() != 1 || v[0] != truth {
 				let d = if v.len() == 1 { first_diff(&v[0], &truth) } else { "wrong number of methods".into() };
 				r.violation(format!("StackMap attribute: {d}"), replay(&format!("the frames of the StackMap attribute are not delivered on the instructions at their offsets: {d}")));
+			} else if fr.len() == 1 && fr[0] != m.truth_frames(&u) {
+				// what each entry says: locals and stack, in the order of the offsets
+				let want = m.truth_frames(&u);
+				let j = fr[0].iter().zip(&want).position(|(a, b)| a != b).unwrap_or(fr[0].len().min(want.len()));
+				let d = format!("entry {j} (by offset): delivered {:?}, the attribute states {:?}", fr[0].get(j), want.get(j));
+				r.violation(format!("StackMap attribute: {d}"), replay(&format!("the locals / stack of an entry of the StackMap attribute are not delivered as written: {d}")));
 			},
 		}
-		let res = match &got { Outcome::Ok(v) => format!("(Ok [{}])", v.iter().map(g_xsem).collect::<Vec<_>>().join("; ")), _ => "Err".into() };
+		let res = match &got { Outcome::Ok(v, _) => format!("(Ok [{}])", v.iter().map(g_xsem).collect::<Vec<_>>().join("; ")), _ => "Err".into() };
 		if !matches!(got, Outcome::Panic(_)) {
 			r.case("cldc-stackmap", format!("CClass {} {} [{}] {}", pool.gallina(), g_bsm(&u.bsm), m.g_code_in(), res));
 		}
@@ -725,7 +776,7 @@ fn stream_broken(ctx: &Ctx, r: &mut Report, rng: &mut Rng) {
 		let bytes = class_of(&u, std::slice::from_ref(&m), &mut pool);
 		r.eval(&hex(&bytes), true);
 		let got = read_with_duke(&bytes);
-		let res = match &got { Outcome::Ok(v) => { r.count("broken_still_ok"); format!("(Ok [{}])", v.iter().map(g_xsem).collect::<Vec<_>>().join("; ")) } Outcome::Err => { r.count("broken_err"); "Err".into() } Outcome::Panic(_) => { r.count("broken_panic_not_compared"); continue } };
+		let res = match &got { Outcome::Ok(v, _) => { r.count("broken_still_ok"); format!("(Ok [{}])", v.iter().map(g_xsem).collect::<Vec<_>>().join("; ")) } Outcome::Err => { r.count("broken_err"); "Err".into() } Outcome::Panic(_) => { r.count("broken_panic_not_compared"); continue } };
 		r.case("broken", format!("CClass {} {} [{}] {}", pool.gallina(), g_bsm(&u.bsm), m.g_code_in(), res));
 	}
 }
@@ -760,10 +811,10 @@ fn stream_code_length(ctx: &Ctx, r: &mut Report, rng: &mut Rng) {
 		match &got {
 			Outcome::Panic(p) => { r.violation(format!("read_class panicked on a method of code_length {len}: {p}"), format!("property C01\nwhat: code_length {len}: nop x {}, goto_w 0, return\n", len.saturating_sub(6))); continue; }
 			Outcome::Err if valid => r.violation(format!("read_class rejects a method of code_length {len}"), format!("property C01\nwhat: code_length {len} (valid): nop x {}, goto_w 0, return is rejected\n", len.saturating_sub(6))),
-			Outcome::Ok(v) if valid && v[0] != m.truth(&u) => r.violation(format!("code_length {len}: {}", first_diff(&v[0], &m.truth(&u))), format!("property C01\nwhat: code_length {len}: nop x {}, goto_w 0, return is not delivered as written\n", len.saturating_sub(6))),
+			Outcome::Ok(v, _) if valid && v[0] != m.truth(&u) => r.violation(format!("code_length {len}: {}", first_diff(&v[0], &m.truth(&u))), format!("property C01\nwhat: code_length {len}: nop x {}, goto_w 0, return is not delivered as written\n", len.saturating_sub(6))),
 			_ => {}
 		}
-		let res = match &got { Outcome::Ok(v) => format!("(Ok [{}])", v.iter().map(g_xsem).collect::<Vec<_>>().join("; ")), _ => "Err".into() };
+		let res = match &got { Outcome::Ok(v, _) => format!("(Ok [{}])", v.iter().map(g_xsem).collect::<Vec<_>>().join("; ")), _ => "Err".into() };
 		r.case("code-length", format!("CClass {} {} [{}] {}", pool.gallina(), g_bsm(&u.bsm), m.g_code_in(), res));
 	}
 }
@@ -798,7 +849,7 @@ fn stream_header(_ctx: &Ctx, r: &mut Report, rng: &mut Rng) {
 
 pub fn run_all(ctx: &Ctx, r: &mut Report) -> anyhow::Result<()> {
 	let mut rng = Rng::new(ctx.seed);
-	r.rule = "generated classes: 1..8 methods sharing one generated constant pool (random group order, filler entries pushing indices across 255/256, duplicates, two-slot entries, nested dynamic constants), each body 1..120 random instructions over the whole instruction set with a random admissible encoding form per instruction (xload_n/xload/wide, ldc/ldc_w/ldc2_w, iinc/wide iinc, goto/goto_w, both switches at every padding), exception/line/local-variable/stack-map tables over random instruction indices in shuffled attribute order; the oracle compares what duke delivers with the description the class was generated from; a case is non-trivial when the class has at least one instruction; distinct by class bytes".into();
+	r.rule = "generated classes: 1..8 methods sharing one generated constant pool (random group order, filler entries pushing indices across 255/256, duplicates, two-slot entries, nested dynamic constants, Dynamic constants sharing one bootstrap method with different NameAndType), each body 1..120 random instructions over the whole instruction set with a random admissible encoding form per instruction (xload_n/xload/wide, ldc/ldc_w/ldc2_w, iinc/wide iinc, goto/goto_w, both switches at every padding), exception/line/local-variable/stack-map tables over random instruction indices in shuffled attribute order; the oracle compares what duke delivers (instructions, labels, tables, and the contents of every stack map frame) with the description the class was generated from; a case is non-trivial when the class has at least one instruction; distinct by class bytes".into();
 	let mut g = rng.fork(1);
 	stream_generated(ctx, r, &mut g);
 	stream_pool(ctx, r, &mut rng.fork(2));
